@@ -87,7 +87,7 @@ package fiber
 //@ ..  c.treePathHash == hash3(str(c.detectionPath))
 
 // Lemma (follows from the prelude's definitions of idx and b2s): the i-th byte of str(s) is the element s[i].
-//@ smt (assert (forall ((m (Array Int Int)) (s Slc) (i Int)) (! (=> (and (<= 0 i) (< i (slen s))) (= (at (b2s m (soff s) (slen s)) i) (select m (idx s i)))) :pattern ((at (b2s m (soff s) (slen s)) i)))))
+//@ smt (assert (forall ((m (Array Int Int)) (s Slc) (i Int)) (! (=> (and (<= 0 i) (< i (slen s)) (<= 0 (select m (idx s i))) (< (select m (idx s i)) 256)) (= (at (b2s m (soff s) (slen s)) i) (select m (idx s i)))) :pattern ((at (b2s m (soff s) (slen s)) i)))))
 
 // configDependentPaths: the only writer of path/detectionPath/treePathHash. The atcall clauses are the
 // intermediate facts (what is decoded / folded is a copy of THIS request's path, in the context's own buffer).
